@@ -2117,3 +2117,60 @@ func E9SquareRange(c *core.Ctx, r *core.Report) {
 	r.Count("E9.square-range-assignments", n)
 	r.Floor("E9.square-range-assignments", 5)
 }
+
+// E9TangentFromRoots: whether a line touches a conic is decided from the multiplicity of the root.
+func E9TangentFromRoots(c *core.Ctx, r *core.Report) {
+	r.Rule("E9.tangent-from-roots", "intersectionLineCircle and intersectionLineEllipse solve a quadratic for the hits of a line with the conic and pass a `tangent` flag to addLineArcIntersection; since tangent hits are not counted by Windings, the flag must mean exactly 'the line touches': it is computed from the number of distinct roots (an expression over len(roots)), not from the value of a root. `Equal(root, 0.0)` is 'touches' only for a horizontal line and an unrotated ellipse; for a rotated ellipse it flags an ordinary crossing on the minor axis and the winding number of points on that ray is off by one (sibling agreement: the circle helper uses len(roots) == 1)")
+	p := c.MustPkg("")
+	info := p.TypesInfo
+	n := 0
+	for _, fname := range []string{"intersectionLineCircle", "intersectionLineEllipse"} {
+		fd := core.MustFuncDecl(p, fname)
+		r.Func("canvas." + fname)
+		ast.Inspect(fd.Body, func(m ast.Node) bool {
+			call, ok := m.(*ast.CallExpr)
+			if !ok {
+				return true
+			}
+			f := core.CalleeOf(info, call)
+			if f == nil || f.Name() != "addLineArcIntersection" || len(call.Args) == 0 {
+				return true
+			}
+			n++
+			key := fmt.Sprintf("canvas.%s|tangent flag is the multiplicity of the root", fname)
+			last := core.Unparen(call.Args[len(call.Args)-1])
+			// resolve a local
+			def := last
+			if id, ok := last.(*ast.Ident); ok {
+				o := core.ObjOf(info, id)
+				ast.Inspect(fd.Body, func(k ast.Node) bool {
+					if as, ok := k.(*ast.AssignStmt); ok && len(as.Lhs) == len(as.Rhs) {
+						for i, l := range as.Lhs {
+							if lid, ok := l.(*ast.Ident); ok && core.ObjOf(info, lid) == o {
+								def = as.Rhs[i]
+							}
+						}
+					}
+					return true
+				})
+			}
+			usesLen := false
+			ast.Inspect(def, func(k ast.Node) bool {
+				if lc, ok := k.(*ast.CallExpr); ok {
+					if fid, ok := lc.Fun.(*ast.Ident); ok && fid.Name == "len" {
+						usesLen = true
+					}
+				}
+				return true
+			})
+			if usesLen {
+				r.OK("E9.tangent-from-roots", key, c.Pos(call.Pos()), c.Src(def))
+			} else {
+				r.Fail("E9.tangent-from-roots", key, c.Pos(call.Pos()), fmt.Sprintf("the tangent flag is `%s`, which does not depend on the number of roots: a crossing can be flagged as touching and is then not counted", c.Src(def)))
+			}
+			return true
+		})
+	}
+	r.Count("E9.line-conic-helpers", n)
+	r.Floor("E9.line-conic-helpers", 2)
+}
